@@ -326,6 +326,7 @@ func checkC17(cx *Ctx, r *Report) {
 		}
 	}
 	// --- one page per reply ---------------------------------------------------------------------------------------
+	cx.requireC20(r) // "one callback per failing chain" is what makes one reply act per step one page per reply
 	cx.checkEmitExactlyOne(r, "R-EMIT", kCallback, w.Func(kCallback))
 	for _, hk := range []string{kSSO, kLogout} {
 		if ch := cx.chain(r, hk); ch != nil {
